@@ -64,6 +64,7 @@ type Script struct {
 	Bcast     bool    // each round has a broadcast-class message of every transmitting party
 	P2P       bool    // each round has one point-to-point message per peer
 	AllAtOnce bool    // transmit the whole script at start, then only listen (stepped mode)
+	Hold      bool    // never complete: after the script, wait until the context ends (keeps stepped runs deterministic)
 	// Transmit: party ids that transmit (nil = all). Parties that do not transmit only listen.
 	Transmit map[uint16]bool
 	Filler   func(round uint8, dst uint16) int
@@ -245,6 +246,11 @@ func (b *Backend) run(ctx context.Context) error {
 		b.mu.Unlock()
 	}
 	b.started.Do(func() { close(b.Started) })
+	if b.Script.Hold {
+		atomic.StoreInt32(&b.state, StBlocked)
+		<-ctx.Done()
+		return ctx.Err()
+	}
 	return nil
 }
 
